@@ -65,6 +65,14 @@ def reachable_tensors(obj: Any, path: str = "", seen=None, depth: int = 0) -> It
                 continue
             yield from reachable_tensors(v, f"{path}.{k}", seen, depth + 1)
         return
+    if isinstance(obj, torch.nn.Module):
+        # what a checkpoint of the receiver would contain (non-persistent caches are not part of it)
+        try:
+            sig["module:state_dict_keys"] = tuple(sorted(obj.state_dict().keys()))
+            sig["module:parameter_names"] = tuple(sorted(n for n, _ in obj.named_parameters()))
+            sig["module:training"] = bool(obj.training)
+        except Exception as e:  # noqa: BLE001
+            sig["module:state_dict_keys"] = f"raised {type(e).__name__}"
     slots = getattr(type(obj), "__slots__", None)
     if slots:
         for s in slots:
@@ -119,6 +127,14 @@ def state_signature(obj: Any) -> Dict[str, Any]:
         for k, v in d.items():
             if isinstance(v, (bool, int, float, str, tuple, type(None))) and not isinstance(v, torch.Tensor):
                 sig["attr:" + k] = v
+    if isinstance(obj, torch.nn.Module):
+        # what a checkpoint of the receiver would contain (non-persistent caches are not part of it)
+        try:
+            sig["module:state_dict_keys"] = tuple(sorted(obj.state_dict().keys()))
+            sig["module:parameter_names"] = tuple(sorted(n for n, _ in obj.named_parameters()))
+            sig["module:training"] = bool(obj.training)
+        except Exception as e:  # noqa: BLE001
+            sig["module:state_dict_keys"] = f"raised {type(e).__name__}"
     slots = getattr(type(obj), "__slots__", None)
     if slots:
         for s in slots:
